@@ -10,6 +10,11 @@
 From Coq Require Import NArith ZArith List Bool.
 From Clemens Require Import Base.Res Base.Word Pos.Types Pos.Position Eval.Eval Search.TT Search.Ordering
      Search.Negamax Search.SearchStruct Search.SearchLines Search.SearchIter Search.GoInst Search.SearchGo.
+From Clemens Require Import Pos.Inv.
+From Clemens.C13Mate Require Import MateDefs MateExamples.
+From Clemens.C05Term Require Import Mono NoFuel Rank QMen GoTerm KK.
+From Clemens.C13Bridge Require Import Bridge.
+From Clemens.C05NoPanic Require Import NoPanicS NoPanicEx.
 Import ListNotations.
 Open Scope Z_scope.
 
@@ -154,6 +159,127 @@ Theorem C05_uncancellable_without_oracle : forall fuel s root d a b s',
   s_cancel s = None -> go_search_root fuel s root d a b <> (RCancel, s').
 Proof. exact (root_not_cancel go_keys go_econsts go_oconsts go_sconsts). Qed.
 Print Assumptions C05_uncancellable_without_oracle.
+
+(* (e) TERMINATION.  The recursion of the model is on explicit fuel (= recursion depth) and the loop of
+   SearchIterative on an explicit bound; [ROutOfFuel] is the only result that has no counterpart in the
+   Go code.  It never occurs: for EVERY state, root, window and requested depth < 255 a loop bound of 510
+   and a recursion bound of 1282 suffice, and then the result (value and final state) is the same for all
+   larger bounds - Search is a total function.  The unconditional bound rests on the repetition stack:
+   every node that is not handed to quiescence pushes one entry and the push fails when the 1024-entry stack
+   is full, so an unbounded chain of check extensions ends in a panic, not in divergence
+   (C05_full_stack_panics shows the panic; it needs a game of more than a thousand plies). *)
+Theorem C05_quiescence_terminates : forall f s p alpha beta ply,
+  (257 <= f)%nat -> fst (go_quiescence f s p alpha beta ply) <> ROutOfFuel.
+Proof. exact go_quiescence_terminates. Qed.
+Print Assumptions C05_quiescence_terminates.
+
+(* ... and by material: every recursive call of quiescence follows a capture *)
+Theorem C05_quiescence_terminates_by_material : forall f s p alpha beta ply,
+  Inv p -> (Nat.min (men p) 256 < f)%nat -> fst (go_quiescence f s p alpha beta ply) <> ROutOfFuel.
+Proof. exact go_quiescence_terminates_men. Qed.
+Print Assumptions C05_quiescence_terminates_by_material.
+
+Theorem C05_negamax_terminates : forall f s p alpha beta depth ply cn pm rh,
+  (1024 - List.length (s_hist s) + 258 <= f)%nat ->
+  fst (go_negamax f s p alpha beta depth ply cn pm rh) <> ROutOfFuel.
+Proof. exact go_negamax_terminates_room. Qed.
+Print Assumptions C05_negamax_terminates.
+
+Theorem C05_search_terminates : forall iters f s root req,
+  (req < 255)%N -> (510 <= iters)%nat -> (1282 <= f)%nat ->
+  fst (go_search iters f true s root req) <> ROutOfFuel.
+Proof. exact go_search_terminates. Qed.
+Print Assumptions C05_search_terminates.
+
+(* Search as a total function of (state, root, requested depth) *)
+Theorem C05_search_total : forall s root req, (req < 255)%N ->
+  exists r s', r <> ROutOfFuel /\
+    forall iters f, (510 <= iters)%nat -> (1282 <= f)%nat -> go_search iters f true s root req = (r, s').
+Proof. exact go_search_total. Qed.
+Print Assumptions C05_search_total.
+
+Theorem C05_root_search_total : forall s root depth alpha beta,
+  exists r s', r <> ROutOfFuel /\
+    forall f, (1282 <= f)%nat -> go_search_root f s root depth alpha beta = (r, s').
+Proof. exact go_search_root_total. Qed.
+Print Assumptions C05_root_search_total.
+
+(* fuel is irrelevant once it suffices: a run that does not report ROutOfFuel is reproduced by every larger bound *)
+Theorem C05_fuel_irrelevant : forall it0 iters f0 f rep s root req r s',
+  go_search it0 f0 rep s root req = (r, s') -> r <> ROutOfFuel -> (it0 <= iters)%nat -> (f0 <= f)%nat ->
+  go_search iters f rep s root req = (r, s').
+Proof. exact (search_fuel_irrelevant go_keys go_econsts go_oconsts go_sconsts). Qed.
+Print Assumptions C05_fuel_irrelevant.
+
+(* the bound that does not lean on the repetition stack: under a budget [cb] on positions that strictly decreases
+   with every move made out of check and never increases (= bounded chains of consecutive checks), the recursion
+   depth is at most  requested depth + cb root + 258  *)
+Theorem C05_search_ranked : forall (U : position -> Prop) (cb : position -> nat),
+  (forall p m q, U p -> movable p m -> make_move go_keys p m = Ok q -> is_legal q = Ok true ->
+     U q /\ (cb q <= cb p)%nat /\ (is_in_check p (side p) = Ok true -> (cb q < cb p)%nat)) ->
+  (forall p q x, U p -> is_in_check p (side p) = Ok false -> make_null_move go_keys p = Ok (q, x) ->
+     U q /\ (cb q <= cb p)%nat) ->
+  forall iters f s root req,
+  U root -> (req < 255)%N -> (510 <= iters)%nat ->
+  (N.to_nat (N.max 1 (req_to_depth go_sconsts req)) + cb root + 258 <= f)%nat ->
+  fst (go_search iters f true s root req) <> ROutOfFuel.
+Proof. exact go_search_ranked. Qed.
+Print Assumptions C05_search_ranked.
+
+(* a non-degenerate universe that meets the ranking hypotheses: all positions with the two kings only *)
+Theorem C05_search_kings_only : forall iters f s root req,
+  kings_only_pos root -> (req < 255)%N -> (510 <= iters)%nat ->
+  (N.to_nat (N.max 1 (req_to_depth go_sconsts req)) + 258 <= f)%nat ->
+  fst (go_search iters f true s root req) <> ROutOfFuel.
+Proof. exact go_search_kings_only. Qed.
+Print Assumptions C05_search_kings_only.
+
+(* "every go ends with exactly one answer": termination composed with crash-freedom (C05NoPanic/*.v: on a legal root no
+   call of the search panics while the repetition stack has room).  For every legal root of a universe with bounded check
+   chains, every state of the shared tables and heuristics, every cancellation point and every requested depth, Search
+   returns a move (never the cancellation error, a panic or the fuel escape) provided the 1024-entry repetition stack has
+   room for  requested depth + check budget + 1  more entries. *)
+Theorem C05_search_answers : forall (U : position -> Prop) (cb : position -> nat),
+  (forall p m q, U p -> movable p m -> make_move go_keys p m = Ok q -> is_legal q = Ok true ->
+     U q /\ (cb q <= cb p)%nat /\ (is_in_check p (side p) = Ok true -> (cb q < cb p)%nat)) ->
+  (forall p q x, U p -> is_in_check p (side p) = Ok false -> make_null_move go_keys p = Ok (q, x) ->
+     U q /\ (cb q <= cb p)%nat) ->
+  forall iters f s root req,
+  legal_pos root -> U root -> (req < 255)%N -> (510 <= iters)%nat ->
+  (N.to_nat (N.max 1 (req_to_depth go_sconsts req)) + cb root + 258 <= f)%nat ->
+  (List.length (s_hist s) + N.to_nat (N.max 1 (req_to_depth go_sconsts req)) + cb root + 1 <= 1024)%nat ->
+  exists m s', go_search iters f true s root req = (ROk m, s').
+Proof. exact go_search_answers_ranked. Qed.
+Print Assumptions C05_search_answers.
+
+Theorem C05_search_never_reports_cancel : forall iters f rep s root req,
+  fst (go_search iters f rep s root req) <> RCancel.
+Proof. exact (search_not_cancel go_keys go_econsts go_oconsts go_sconsts). Qed.
+Print Assumptions C05_search_never_reports_cancel.
+
+Theorem C05_quiescence_no_panic : forall f s p alpha beta ply,
+  legal_pos p -> fst (go_quiescence f s p alpha beta ply) <> RPanic.
+Proof. exact NoPanicQ.go_quiescence_no_panic. Qed.
+Print Assumptions C05_quiescence_no_panic.
+
+(* the hypotheses of C05_search_answers are met: kings only, depth 3, any state with at most 1020 stack entries *)
+Example C05_search_answers_example : forall s f, (List.length (s_hist s) <= 1020)%nat -> (261 <= f)%nat ->
+  exists m s', go_search 510 f true s (root_of kk_fen) 3 = (ROk m, s').
+Proof. exact kk_answers_any_fuel. Qed.
+
+(* what "terminates" means at the edge: with 1023 entries on the repetition stack a depth-2 search panics
+   (Go: index out of range [1024] in pkg/search/history.go) - outside the 600-ply games of C03 *)
+Example C05_full_stack_panics :
+  match go_new_position with
+  | Ok root => fst (go_search 510 1282 true (go_init_sst go_tt_init [] (repeat 1%N 1023) None) root 2)
+  | _ => ROutOfFuel
+  end = RPanic.
+Proof. exact go_full_stack_panics. Qed.
+
+(* check extensions at work: a position with 14 consecutive mutual checks; recursion bound 12 is too small at depth 1 *)
+Example C05_check_chain :
+  chain14_run 12 = ROutOfFuel /\ chain14_run 16 = ROk 982%N /\ chain14_run 40 = ROk 982%N.
+Proof. exact chain14_depth1. Qed.
 
 (* Non-vacuity: a depth-2 search of the start position from a freshly started engine whose
    oracle fires at poll 3: the first loop is cut short (4 polls of the caller's context in all,
